@@ -418,6 +418,17 @@ def cases(rng, tier):
     for n in cher:
         i += 1
         both(n, 'carmichael-large-factors', i)
+    # very large n (1450-1800 bits): select_b grows with the bit length and B2 = 100 * B1 approaches 2^64 -- the u64 arithmetic
+    # of the drivers must not overflow in the dev profile. The extracted model is far too slow on 1500-bit numbers (floor
+    # roots for every exponent), so these cases are decided by the independent oracle on the implementation alone.
+    for n in (2 * 3 ** 950, 6 * 5 ** 700, 3 * 2 ** 1500, 2 ** 1471 * 7, 10 * 3 ** 1000):
+        for prof in profs:
+            out.append(Case('ecm_factorize', line('ecm_factorize', n, 12345, []), model=lib.IMPL_ONLY, oracle=o_fact(n), always_oracle=True,
+                            tag='ecm_factorize-huge-n', profile=prof, nontrivial=True))
+    # KNOWN FINDING D14 (known_findings.json): the batched driver does not return on such n (4*10^8 curves allocated up front);
+    # one instance is kept so that the finding stays visible (reported as KNOWN-FINDING, not as a violation)
+    out.append(Case('ecmpar_factorize', line('ecmpar_factorize', 2 * 3 ** 950, 12345, []), model=lib.IMPL_ONLY, oracle=o_fact(2 * 3 ** 950),
+                    always_oracle=True, tag='ecmpar_factorize-huge-n-known-finding', profile='debug', nontrivial=True))
     for n in (1, 0, -1, -91, -2 ** 70):
         for prof in profs:
             for op in ('ecm_factorize', 'ecmpar_factorize'):
